@@ -37,7 +37,9 @@ def main(seed, ncases, driver, out):
         if skip(c): continue
         rnd = case_rnd(seed, c)
         fmt = FORMATS[c % len(FORMATS)]
-        N = rnd.randint(2, 3); sizes = [rnd.randint(1, 2) for _ in range(N)]; d = sum(sizes)
+        N = rnd.randint(2, 3); sizes = [rnd.randint(1, 2) for _ in range(N)]
+        if fmt == "dict-sparse": sizes[0] = 2
+        d = sum(sizes)
         blocks = sum([[b] * s for b, s in enumerate(sizes)], [])
         rng = np.random.default_rng(rnd.randrange(2**31))
         E = np.array([10 * blocks[a] + int(rng.integers(0, 3)) + 1 for a in range(d)], dtype=float)
@@ -47,6 +49,13 @@ def main(seed, ncases, driver, out):
         for n in [(1, 1), (2, 0), (0, 2), (2, 1)]:
             if rnd.random() < 0.6: terms[n] = herm()
         if (1, 1) not in terms and (2, 1) not in terms: terms[(1, 1)] = herm()                  # a mixed order is always present
+        if fmt == "dict-sparse" and sizes[0] * sizes[1] >= 2:
+            # all-sparse carriers: the coupling of the first two blocks has one stored entry in either first-order term, at different places (right-hand sides of the
+            # solver with the same number of stored entries and other patterns)
+            o0, o1 = 0, sizes[0]
+            for n_, (ra, rb, val) in (((1, 0), (0, 0, 2 + 1j)), ((0, 1), (sizes[0] - 1, sizes[1] - 1, 3 - 2j))):
+                terms[n_][o0:o0 + sizes[0], o1:o1 + sizes[1]] = 0; terms[n_][o1:o1 + sizes[1], o0:o0 + sizes[0]] = 0
+                terms[n_][o0 + ra, o1 + rb] = val; terms[n_][o1 + rb, o0 + ra] = np.conj(val)
         fd = tuple(b for b in range(N) if rnd.random() < 0.4)
         desc = {"case": c, "format": fmt, "sizes": sizes, "fd": list(fd), "E": E.tolist(), "orders": sorted(map(list, terms))}
         dist[fmt] = dist.get(fmt, 0) + 1
